@@ -140,6 +140,11 @@ def match_finding(findings: list, prop: str, sig: dict):
                     ok = False
                     break
                 continue
+            if k == 'shape_contains':
+                if want not in str(sig.get('shape', '')):
+                    ok = False
+                    break
+                continue
             if k == 'type_kind_prefix':
                 if not str(sig.get('type_kind', '')).startswith(want):
                     ok = False
